@@ -458,6 +458,7 @@ func C18(run *hx.Run) {
 		run.Count("lifetime_rows", rep.Rows)
 		run.Count("lifetime_values_scanned", rep.Values)
 		run.Count("lifetime_byte_slices_overwritten", rep.Overwritten)
+		run.Count("lifetime_spare_capacity_bytes_overwritten", rep.SpareCapacityBytes)
 		run.DistinctN(rep.Rows)
 		for _, st := range rep.Stages {
 			run.See("lifetime_stage", st)
@@ -481,7 +482,9 @@ type c18Report struct {
 	Rows        int          `json:"rows"`
 	Values      int          `json:"values"`
 	Overwritten int          `json:"overwritten"`
-	Stages      []string     `json:"stages"`
+	// bytes of spare capacity behind scanned slices that were overwritten as well
+	SpareCapacityBytes int      `json:"spare_capacity_bytes"`
+	Stages             []string `json:"stages"`
 }
 
 type scannedRow struct {
@@ -492,6 +495,9 @@ type scannedRow struct {
 	bytCopy [][]byte
 }
 
+// c18LateScan: first difference seen when a row kept from the previous callback was scanned one callback later.
+var c18LateScan string
+
 func c18ReadAll(db *sqlittle.DB, tables []string) ([]scannedRow, error) {
 	var out []scannedRow
 	for _, tn := range tables {
@@ -499,7 +505,24 @@ func c18ReadAll(db *sqlittle.DB, tables []string) ([]scannedRow, error) {
 		if err != nil {
 			continue // a table sqlittle rejects
 		}
+		var prevRow sqlittle.Row
+		var prevStrs []string
 		err = db.Select(tn, func(r sqlittle.Row) {
+			// the row of the previous callback, kept as it was handed out: still inside the same transaction,
+			// scanning it now must give what scanning it then gave
+			if prevRow != nil {
+				now := make([]string, len(cols))
+				nd := make([]interface{}, len(cols))
+				for i := range cols {
+					nd[i] = &now[i]
+				}
+				prevRow.Scan(nd...)
+				for i := range now {
+					if now[i] != prevStrs[i] && c18LateScan == "" {
+						c18LateScan = fmt.Sprintf("table %s: a row kept from the previous callback scans to %q in column %d; inside its own callback it scanned to %q", tn, clip(now[i], 40), i, clip(prevStrs[i], 40))
+					}
+				}
+			}
 			sr := scannedRow{table: tn}
 			sd := make([]interface{}, len(cols))
 			bd := make([]interface{}, len(cols))
@@ -516,6 +539,7 @@ func c18ReadAll(db *sqlittle.DB, tables []string) ([]scannedRow, error) {
 				sr.bytCopy = append(sr.bytCopy, append([]byte(nil), sr.byts[i]...))
 			}
 			out = append(out, sr)
+			prevRow, prevStrs = r, sr.strCopy
 		}, cols...)
 		if err != nil {
 			return out, err
@@ -554,9 +578,19 @@ func c18Worker(args []string) {
 		rep.Values += 2 * len(r.strs)
 	}
 	rep.Stages = append(rep.Stages, "first-read")
-	// (i) overwrite every scanned byte slice
+	if c18LateScan != "" {
+		add("row-kept-for-one-callback-changed", c18LateScan)
+	}
+	// (i) overwrite every scanned byte slice - and whatever spare capacity came with it (what append() would write to)
 	for _, r := range first {
 		for _, b := range r.byts {
+			if cap(b) > len(b) {
+				spare := b[len(b):cap(b)]
+				for i := range spare {
+					spare[i] = 0xAB
+				}
+				rep.SpareCapacityBytes += len(spare)
+			}
 			for i := range b {
 				b[i] = 0xAA
 			}
